@@ -274,6 +274,29 @@ where
     }
 }
 
+#[cfg(feature = "verif-hooks")]
+impl<R, IO> TcpTransport<R, IO>
+where
+    R: tower::Service<Box<str>, Response = SocketAddrs, Error = io::Error> + Send + Clone + 'static,
+    R::Future: Send + 'static,
+{
+    /// Verification hook: the order in which connection attempts would be started for a
+    /// resolver answer `addrs` and a request port `port` (same path as `connect`).
+    pub fn verif_plan<A>(&self, addrs: A, port: u16) -> Vec<SocketAddr>
+    where
+        A: IntoIterator<Item = SocketAddr>,
+    {
+        let mut addrs = SocketAddrs::from_iter(addrs);
+        addrs.set_port(port);
+        let mut connecting = self.connecting(addrs);
+        let mut order = Vec::new();
+        while let Some(address) = connecting.addresses.pop() {
+            order.push(address);
+        }
+        order
+    }
+}
+
 /// Future which implements the happy eyeballs algorithm for connecting to a remote address.
 ///
 /// This follows the algorithm described in [RFC8305](https://tools.ietf.org/html/rfc8305),
